@@ -240,6 +240,36 @@ def analyze (inp : Input) : Except Err Out :=
       | none => .error .nanStd
       | some v => .ok { base with coefs := some c, rvar := some v }
 
+/-! ## Request histories on one processor
+
+What `SetProjectorsBasis`, `removeProjectorsBasis` and `ConfigurePulseLengths` do to the model a processor
+analyses with.  A request that is REFUSED leaves the processor exactly as it was. -/
+
+structure Proc where
+  nsamp : Nat
+  npre : Nat
+  model : Option (Mat × Mat)       -- the last ACCEPTED projectors / basis, if any
+
+inductive Req where
+  | load (P B : Mat)               -- SetProjectorsBasis
+  | remove                         -- removeProjectorsBasis
+  | lengths (nsamp npre : Nat)     -- ConfigurePulseLengths (edge-multi validation aside: never refused here)
+
+/-- one request: the new state and whether the request was refused -/
+def Proc.step (p : Proc) : Req → Proc × Bool
+  | .load P B => if setPBok p.nsamp P B then ({ p with model := some (P, B) }, false) else (p, true)
+  | .remove => ({ p with model := none }, false)
+  | .lengths ns np =>
+    (if ns = p.nsamp ∧ np = p.npre then p else { nsamp := ns, npre := np, model := none }, false)
+
+def Proc.run (p : Proc) : List Req → Proc
+  | [] => p
+  | q :: qs => (p.step q).1.run qs
+
+/-- analysis of one record by a processor in state `p` -/
+def Proc.analyze (p : Proc) (recNpre : Nat) (signed : Bool) (data : List Nat) : Except Err Out :=
+  C13.analyze { npre := recNpre, cfgNpre := p.npre, nsamp := p.nsamp, signed := signed, data := data, pb := p.model }
+
 /-! ## Floating-point values as exact rationals -/
 
 inductive FV where
@@ -602,17 +632,45 @@ def cmpModel (mr : Option MatRef) (inp : Input) (m : Out) (o : ImplOut) : Option
      | _ => some "rsd-nonzero-without-projectors")
   | _, _, _ => some "model and reference disagree on whether projectors are loaded"
 
+/-- short form of the `src` token for the evidence tags (`hist:<step>:<kind>:<history>` ↦ `hist:<step>`) -/
+def srcTag (src : String) : String := ":".intercalate ((src.splitOn ":").take 2)
+
+/-- A case of a request history that follows a REFUSED `SetProjectorsBasis` request (nothing accepted or removed
+in between): its model is the last accepted one (or none), so any disagreement in the linear-model values means the
+refused request changed the analysis. -/
+def afterRefused (src : String) : Bool := src.startsWith "hist-after-refused:"
+
+def refusedSig : String :=
+  "C13:refused-model-changed-analysis after a REFUSED SetProjectorsBasis request the record is not analysed with the last accepted model (history in the src token)"
+
 def runLine (ts : List String) : Verdict :=
+  -- a panic inside AnalyzeData (caught by the harness) is an observed output
+  match ts, ts.dropWhile (· != "OUT") with
+  | "src" :: src :: _, "OUT" :: "PANIC" :: cls =>
+    if afterRefused src then .viol s!"{refusedSig}: AnalyzeData panicked ({" ".intercalate cls})"
+    else .viol s!"C13:analysis-panic AnalyzeData panicked ({" ".intercalate cls})"
+  | _, _ =>
   match P.run parseLine ts with
   | .error e => .bad e
-  | .ok (src, inp, o) =>
+  | .ok (src0, inp, o) =>
+    let src := srcTag src0
+    let isModelPart (v : String) : Bool :=
+      v.startsWith "C13:model-coef" || v.startsWith "C13:coef-count" || v.startsWith "C13:resid-stddev"
     let mr := matRefOf inp
     match chkC13With mr inp o with
-    | some v => .viol v
+    | some v => if afterRefused src0 && isModelPart v then .viol s!"{refusedSig}: {v}" else .viol v
     | none =>
     match chkSummary o with
     | some v => .viol v
     | none =>
+    -- nothing is loaded (no request was ever accepted, or the model was removed) and the last request was refused:
+    -- the definitions in force say "no model", so reported coefficients / a residual are a violation
+    let noModelInForce : Bool := match inp.pb with
+      | none => afterRefused src0                       -- history: nothing accepted / removed, last request refused
+      | some (P, B) => !setPBok inp.nsamp P B            -- fresh processor whose only request must be refused
+    if noModelInForce && (o.coefs.length != 0 || (match o.rsd with | .fin q => q != 0 | _ => true)) then
+      .viol s!"{refusedSig}: model coefficients / residual reported although no model is loaded"
+    else
     match analyze inp with
     | .error .badRecord =>
       -- presamples = 0 or no post-trigger sample (possible for edge-multi variable-length records): the
@@ -641,6 +699,7 @@ def runLine (ts : List String) : Verdict :=
           (match m.ptd with | none => ["ptd-nan"] | some _ => []) ++
           (match m.coefs with | some c => ["proj", s!"nbases-{c.length}"] | none => []) ++
           (if m.setErr then ["shape-rejected"] else []) ++
+          (if afterRefused src0 then ["after-refused-request"] else []) ++
           (match o.summary with | some _ => ["summary-msg"] | none => []) ++
           (if inp.data.length ≥ 1000 then ["len>=1000"] else if inp.data.length ≥ 100 then ["len>=100"] else ["len<100"])
         .ok tags
